@@ -36,9 +36,9 @@ func init() {
 	Register(&Check{
 		ID:       "C07",
 		Title:    "first-come-first-served pairing, kept stays with earliest sources",
-		Files:    []vm.HarnessFile{hf("internal/interpreter", "zz_verif_c07.go")},
-		LoadPkgs: []string{"internal/interpreter"},
-		InitPkgs: []string{"internal/interpreter"},
+		Files:    append([]vm.HarnessFile{hf("internal/interpreter", "zz_verif_c07.go")}, apiFiles...),
+		LoadPkgs: apiLoad,
+		InitPkgs: []string{"", "internal/interpreter"},
 		Cases: func(tier string) []Case {
 			maxS, maxR := 3, 3
 			if tier == "thorough" {
@@ -56,11 +56,26 @@ func init() {
 					}
 				}
 			}
+			// API tier: the same pairing seen through whole scripts - kept shares spanning several
+			// sources, one cap variable on several clauses, and every variable used again afterwards
+			capv := map[string][2]string{"cap": {"monetary", "mon:USD"}}
+			var api []Case
+			for _, d := range []string{"{ max $cap kept max $cap to @d remaining to @e }", "{ max $cap to @d max $cap kept remaining to @e }", "{ max $cap kept remaining to @d }",
+				"{ max $cap to { max $cap to @a remaining kept } remaining to @d }", "{ 1/2 kept 1/2 to @d }", "{ max $cap to @d max $cap to @e max $cap kept remaining kept }"} {
+				for _, src := range []string{"{ @a @b }", "{ @a @b @c }", "{ max $cap from @a @b }", "{ @a @world }"} {
+					api = append(api, apiCase("C07", "api-kept-and-shared-caps", []string{sendFixed("USD", src, d)}, capv))
+				}
+				api = append(api, apiCase("C07", "api-kept-and-shared-caps", []string{sendAll("USD", "{ @a @b }", d)}, capv))
+			}
+			if tier != "thorough" {
+				api = thinCases(api, 2)
+			}
+			cases = append(cases, withObserved(api, 1)...)
 			return cases
 		},
 		Bounds: map[string]map[string]interface{}{
-			"quick":    {"senders": "1..3", "receivers": "1..3", "names": "all aliasing patterns over 3 names, <kept> in every position", "amounts": "unbounded positive integers, equal totals"},
-			"thorough": {"senders": "1..4", "receivers": "1..5", "names": "all aliasing patterns over 3 names, <kept> in every position", "amounts": "unbounded positive integers, equal totals"},
+			"quick":    {"senders": "1..3", "receivers": "1..3", "names": "all aliasing patterns over 3 names, <kept> in every position", "amounts": "unbounded positive integers, equal totals", "api": "12 of 30 scripts with kept shares and one cap variable on several clauses, each also with every variable used again by a trailing send"},
+			"thorough": {"senders": "1..4", "receivers": "1..5", "names": "all aliasing patterns over 3 names, <kept> in every position", "amounts": "unbounded positive integers, equal totals", "api": "all 30 scripts, each also with observers"},
 		},
 		Assumptions: []string{
 			"sender and receiver amounts are > 0 and the totals are equal (guaranteed by pushSender/pushReceiver and runSendStatement; asserted in the C04/C05 harnesses)",
